@@ -182,9 +182,9 @@ class RungeKuttaIntegrator(TableauIntegrator, abc.ABC):
         
         if self.final_rhs is not None and self.final_time is not None and self.final_state is not None \
                 and D.ar_numpy.all(initial_time == self.final_time) and D.ar_numpy.all(initial_state == self.final_state) \
-                and self.__same_constants(constants):
+                and getattr(self, "_RungeKuttaIntegrator__final_rhs_fn", None) is rhs and self.__same_constants(constants):
             # the cached end slope may only be reused when this call starts where the last accepted step ended
-            # and evaluates the same equation (the constants are parameters of the right-hand side)
+            # and evaluates the same equation (the same right-hand side with the same constants, which are its parameters)
             self.initial_rhs = self.final_rhs
             if self.is_fsal:
                 self.stage_values[...,0] = self.final_rhs
@@ -257,6 +257,7 @@ class RungeKuttaIntegrator(TableauIntegrator, abc.ABC):
         self.final_time = initial_time + self.dTime
         self.final_state = initial_state + self.dState
         self.__final_constants = dict(constants)
+        self.__final_rhs_fn = rhs
 
         if not self.is_adaptive and D.ar_numpy.abs(timestep) > D.ar_numpy.abs(current_timestep):
             # a scheme without an embedded error estimate has nothing to base a longer step on: it keeps the requested step
